@@ -664,7 +664,7 @@ where
         // during the current revision and thus obtained an `&` reference to those fields
         // that is still live.
 
-        {
+        let last_updated_at = {
             // SAFETY: `updated_at` is never exclusively borrowed, so borrowing it is sound
             let last_updated_at = unsafe { (*data_raw).updated_at.load() };
             assert!(
@@ -700,7 +700,9 @@ where
                     must have been leaked across threads"
                 );
             }
-        }
+
+            last_updated_at
+        };
 
         // SAFETY: We have claimed mutable access by swapping `None` into
         // `updated_at`, so the retained fields are exclusively borrowed.
@@ -714,6 +716,29 @@ where
         // SAFETY: `revisions` contains `AtomicRevision` values which can be safely accessed
         // concurrently with `tracked_field::maybe_changed_after`.
         let revisions = unsafe { &(*data_raw).revisions };
+
+        // `update_fields` runs user code (`PartialEq` of the fields) and `clear_memos` runs the
+        // user's event callback; both may panic. Release the write lock on unwind: otherwise
+        // `updated_at` stays `None` forever and every later re-creation of this struct fails the
+        // "two concurrent writers" assertion. At that point every field holds either its old or
+        // its new value with a matching revision stamp, and the struct still counts as not
+        // updated in this revision, so the creator simply updates it again when it re-executes.
+        struct ReleaseWriteLockOnUnwind<'a> {
+            updated_at: &'a OptionalAtomicRevision,
+            last_updated_at: Option<Revision>,
+        }
+
+        impl Drop for ReleaseWriteLockOnUnwind<'_> {
+            fn drop(&mut self) {
+                self.updated_at.swap(self.last_updated_at);
+            }
+        }
+
+        let release_on_unwind = ReleaseWriteLockOnUnwind {
+            // SAFETY: `updated_at` is never exclusively borrowed, so borrowing it is sound
+            updated_at: unsafe { &(*data_raw).updated_at },
+            last_updated_at,
+        };
 
         let identity_fields_changed =
             C::update_fields(current_deps.changed_at, revisions, old_fields, fields);
@@ -745,6 +770,8 @@ where
             }
         }
         *durability = current_deps.durability;
+        // No user code runs between here and the release of the lock below.
+        std::mem::forget(release_on_unwind);
         // SAFETY: `updated_at` is never exclusively borrowed, so borrowing it is sound
         // release the lock
         let swapped_out = unsafe { (*data_raw).updated_at.swap(Some(zalsa.current_revision())) };
